@@ -8,7 +8,7 @@ import json
 import os
 import re
 
-from .. import core, gen_rust, gen_tree
+from .. import core, gen_rust, gen_tree, prng
 from ..engine import Verdict
 
 ID = "C06"
@@ -64,12 +64,32 @@ def generate(rng, tier):
         files[t.root] = "#![rustfmt::skip]\n" + files[t.root]  # the whole source opts out
     # sometimes a second input on the same command line (an emitter's state must survive between inputs)
     nextra = rng.choice([0, 0, 0, 1, 1, 2])
+    # (decisions of the nested-input variant come from a side stream: the main stream stays what it was)
+    nr = prng.Rng(prng.mix(rng.seed, "c06-nested-input"))
+    leafroots = []
     for j in range(nextra):
         t2 = gen_tree.gen_crate(rng, base="e%d" % j, root_name="x%d.rs" % j, max_files=rng.choice([1, 1, 2]), feats={"modrs"},
                                 suffix="x%d" % j, body=body)
+        if len(t2.reach) == 1 and nr.chance(45):
+            # a one-file input living below the directory of the first input, often with a configuration of its own
+            # there: each input is formatted under the configuration found from its own directory
+            nd = os.path.join(os.path.dirname(t.root), "zz%d" % j)
+            nroot = nd + "/x%d.rs" % j
+            if not any(f.startswith(nd + "/") for f in files):
+                files[nroot] = t2.files[t2.root]
+                srcs.append(nroot)
+                roots.append(nroot)
+                leafroots.append(nroot)
+                if nr.chance(75):
+                    files[nd + "/" + nr.choice(["rustfmt.toml", ".rustfmt.toml"])] = nr.choice(
+                        ["tab_spaces = 2\n", "hard_tabs = true\n", "tab_spaces = 8\n", 'brace_style = "AlwaysNextLine"\n',
+                         'newline_style = "Windows"\n', "max_width = 40\n"])
+                continue
         files.update(t2.files)
         srcs += list(t2.reach)
         roots.append(t2.root)
+        if len(t2.reach) == 1:
+            leafroots.append(t2.root)
     variant = {}
     for f in srcs:
         k = rng.below(100)
@@ -102,6 +122,7 @@ def generate(rng, tier):
     return {
         "world": {"files": files}, "tree": t.to_json(), "sources": srcs, "variant": variant, "preformatted": pre, "roots": roots,
         "hashseed": rng.below(1 << 32), "stream_faults": rng.below(4), "abs": rng.chance(20), "linked": linked,
+        "leafroots": leafroots,
     }
 
 
@@ -446,6 +467,15 @@ def execute(case):
         # ---- coverage: read-only oracle only
         run("coverage", ["--emit", "coverage"]+ rootargs)
         # ---- stdin lane
+        for f in ([] if single else case.get("leafroots") or []):
+            # one-file inputs of a longer command line: the same source on standard input, from its own directory
+            if f not in T or core.abnormal(rs):
+                continue
+            ri, _ = run("stdin", [], stdin=orig[f], cwd=os.path.dirname(f))
+            if ri.exit == 0 and ri.stdout != T[f]:
+                v.add("C06:stdin-vs-path-text|one-of-several-inputs", "%s: text for the source on stdin (%d bytes) != text for the path as one of the inputs %s (%d bytes)"
+                      % (f, len(ri.stdout), roots, len(T[f])), file=f)
+            v.probe("stdin-vs-one-of-several-inputs")
         if single:
             f = srcs[0]
             d = os.path.dirname(f)
